@@ -9,6 +9,7 @@ from __future__ import annotations
 import numpy as np
 
 from .. import em, games
+from .. import prelude
 from ..core import Sim
 
 LEVEL = "exploration"
@@ -74,6 +75,7 @@ def run(sim: Sim) -> None:
     explorable = games.explorable_ids(n)
     budget = None if not sim.flip(1, 3, "budget?") else 1 + sim.choose(len(explorable), "budget")
     exact = False
+    prelude.warm_process(sim)
     with sim.guard("C16.construction_raised"):
         if sim.flip(1, 3, "registry"):
             source = em.RegistrySource(sim.pick(KEYS[cls], "key"), n, sim.choose(2 ** 32, "seed"))
